@@ -70,7 +70,8 @@ def reader_side(ctx):
     depccg.lang.set_global_language_to('en')
     from depccg.printer.auto import auto_of
     inv = [Category.parse(x) for x in gen.inventory('en')]
-    pairs = [(Category.parse(','), Category.parse('NP')), (Category.parse('conj'), Category.parse('NP\\NP')), (Category.parse(','), Category.parse(','))]
+    pairs = [(Category.parse(','), Category.parse('NP')), (Category.parse('conj'), Category.parse('NP\\NP')), (Category.parse(','), Category.parse(',')),
+             (Category.parse(','), Category.parse('S[ng]\\NP')), (Category.parse(','), Category.parse('S[pss]\\NP')), (Category.parse(','), Category.parse('S[dcl]/S[dcl]'))]
     # nodes whose own category carries the variable feature [X] (adverbial modifiers, type-raised categories): derivable, so labelled
     xs = [c for c in inv if '[X]' in str(c)] + [t_ for ts_ in gen.grammar('en')[2].values() for t_ in ts_ if '[X]' in str(t_)] \
         + [Category.parse(s_) for s_ in ['((S[X]\\NP)\\(S[X]\\NP))/NP', '(S[X]\\NP)\\(S[X]\\NP)', 'S[X]/(S[X]\\NP)', '(S[X]\\NP)/(S[X]\\NP)']]
@@ -106,6 +107,25 @@ def reader_side(ctx):
         except Exception:      # noqa
             got = []
         os.unlink(path)
+        # the same nodes through C&C XML: the rule name is kept from the file, the symbol (and head) must be those of a result with that name and category
+        trees_ = [Tree.make_binary(r.cat, Tree.make_terminal(gen.rand_token(rng, 'en', True, True), x), Tree.make_terminal(gen.rand_token(rng, 'en', True, True), y),
+                                   r.op_string, r.op_symbol, r.head_is_left) for r in outs]
+        try:
+            xtxt = to_string([[ScoredTree(t_, 0.0)] for t_ in trees_], format='xml')
+            fd, xpath = tempfile.mkstemp(suffix='.xml', dir=ctx.work)
+            os.write(fd, xtxt.encode('utf-8'))
+            os.close(fd)
+            xgot = list(read_xml(xpath))
+            os.unlink(xpath)
+        except Exception:      # noqa
+            xgot = []
+        for g_, r in zip(xgot, outs):
+            node = g_.tree
+            same = [q for q in rules if q.cat == node.cat and q.op_string == node.op_string]
+            if same and not any((q.op_symbol, q.head_is_left) == (node.op_symbol, node.head_is_left) for q in same):
+                ctx.fail('reader_label', f'xml: node {node.cat} over children ({x}, {y}) written with rule {r.op_string!r}/{r.op_symbol!r} is read back as {node.op_string!r}/{node.op_symbol!r} '
+                         f'head_left={node.head_is_left}; the results named {node.op_string!r} with that category are {[(q.op_symbol, q.head_is_left) for q in same]}',
+                         {'format': 'xml', 'lang': 'en', 'node': str(node.cat), 'children': [str(x), str(y)], 'label': node.op_string})
         ctx.case(('same-children', str(x), str(y)), nontrivial=len(outs) > 1)
         ctx.count('reader:same_children_sequences')
         for g_, r in zip(got, want):
